@@ -6,6 +6,47 @@ type reuseCase struct {
 	a, b      []string
 }
 
+// twoInstCase: a second instance (op2, attrs2) is initialised before the first (op, attrs) is applied to a.
+type twoInstCase struct {
+	op, attrs, op2, attrs2 string
+	a                      []string
+}
+
+var twoInstTable = map[string][]twoInstCase{
+	"C09": {
+		{"ReduceMax", "axes=0", "ReduceMin", "axes=1", []string{"2,3"}},
+		{"ReduceMin", "axes=1;keepdims=0", "ReduceMin", "axes=0;keepdims=1", []string{"2,3"}},
+		{"ReduceMax", "axes=0,1", "ReduceMax", "keepdims=0", []string{"2,3"}},
+		{"ArgMax", "axis=1;keepdims=0", "ArgMax", "axis=0", []string{"2,3"}},
+		{"Softmax", "axis=0", "Softmax", "", []string{"2,2"}},
+		{"LogSoftmax", "axis=0", "Softmax", "axis=1", []string{"2,2"}},
+	},
+	"C07": {
+		{"Flatten", "axis=0", "Flatten", "", []string{"2,1,2"}},
+		{"Flatten", "", "Flatten", "axis=2", []string{"2,1,2"}},
+	},
+	"C04": {
+		{"Gemm", "alpha=2;transB=1", "Gemm", "", []string{"2,2", "2,2"}},
+		{"Scaler", "offset=1,2;scale=3,4", "Scaler", "offset=5,6;scale=7,8", []string{"1,2"}},
+		{"LinearRegressor", "coefficients=1,2;targets=1", "LinearRegressor", "coefficients=3,4;intercepts=5;targets=1", []string{"1,2"}},
+	},
+	"C06": {
+		{"GRU", "hidden_size=2;activations=tanh,sigmoid", "GRU", "hidden_size=2", []string{"2,1,2", "1,6,2", "1,6,2"}},
+		{"RNN", "hidden_size=2", "LSTM", "hidden_size=2;activations=relu,relu,relu", []string{"2,1,2", "1,2,2", "1,2,2"}},
+	},
+	"C05": {
+		{"Conv", "dilations=2;strides=2", "Conv", "", []string{"1,1,5", "1,1,2"}},
+	},
+	"C08": {
+		{"Concat", "axis=0", "Concat", "axis=1", []string{"2,2", "2,2"}},
+		{"Transpose", "perm=1,0", "Transpose", "perm=", []string{"2,3"}},
+		{"Gather", "axis=1", "Gather", "", []string{"2,3", "1:i64=-1"}},
+	},
+	"C15": {
+		{"Concat", "axis=0", "Add", "", []string{"2,2", "2,2"}},
+	},
+}
+
 var reuseTable = map[string][]reuseCase{
 	"C03": {
 		{"Add", "", []string{"2,2", "2"}, []string{"3", "1"}},
@@ -107,10 +148,13 @@ func reuseJobs(prop string) []Job {
 		}
 		jobs = append(jobs, Job{Harness: "opset13.H_reuse", Case: map[string]interface{}{"prop": prop, "op": c.op, "attrs": c.attrs, "a": a, "b": b}})
 	}
+	for _, c := range twoInstTable[prop] {
+		jobs = append(jobs, Job{Harness: "opset13.H_reuse", Case: map[string]interface{}{"prop": prop, "op": c.op, "attrs": c.attrs, "a": c.a, "b": c.a, "op2": c.op2, "attrs2": c.attrs2}})
+	}
 	return jobs
 }
 
-const reuseBound = "operator instances have no memory: one initialised instance applied to input set A, then B (another rank / geometry), then A again, and twice to the same tensor objects; every result compared with a fresh instance's (errors included), all float/bool elements symbolic (exact real arithmetic)"
+const reuseBound = "operator instances have no memory and do not share state (two instances initialised before either is applied): one initialised instance applied to input set A, then B (another rank / geometry), then A again, and twice to the same tensor objects; every result compared with a fresh instance's (errors included), all float/bool elements symbolic (exact real arithmetic)"
 
 // operators with optional attributes: some of their jobs are repeated with the attribute list re-spelled
 var respellOps = map[string]bool{"ArgMax": true, "ReduceMax": true, "ReduceMin": true, "Gemm": true, "Conv": true, "GRU": true, "LSTM": true,
@@ -121,8 +165,8 @@ func respellJobs(p *Plan) []Job {
 	var out []Job
 	count := map[string]int{}
 	for _, j := range p.Jobs {
-		if len(j.Harness) < 10 || j.Harness[:10] != "opset13.H_" || j.Harness == "opset13.H_reuse" {
-			continue
+		if len(j.Harness) < 10 || j.Harness[:10] != "opset13.H_" || j.Harness == "opset13.H_reuse" || j.Harness == "opset13.H_C09_softmax" {
+			continue // (the IEEE softmax proofs take minutes each: their ring-arithmetic twins are re-spelled instead)
 		}
 		op, _ := j.Case["op"].(string)
 		switch j.Harness {
@@ -149,8 +193,109 @@ func respellJobs(p *Plan) []Job {
 	return out
 }
 
+// twinJobs: two look-alike Models in one process (harness gonnx.H_twins), per property.
+var twinTable = map[string][]map[string]interface{}{
+	"C01": {{"kind": "constant", "enc": "typed"}, {"kind": "constant", "enc": "floats"}, {"kind": "initializer", "enc": "typed"}},
+	"C11": {{"kind": "constant", "enc": "typed"}, {"kind": "constant", "enc": "floats"}},
+	"C12": {{"kind": "initializer", "enc": "typed"}},
+	"C04": {{"kind": "linreg"},
+		{"kind": "attribute", "op": "Gemm", "attrsA": "alpha=2;transB=1", "attrsB": "", "shape": []int{2, 2}, "inits": []string{"w:2,2"}},
+		{"kind": "attribute", "op": "Scaler", "attrsA": "offset=1,2;scale=3,4", "attrsB": "offset=5,6;scale=7,8", "shape": []int{1, 2}, "inits": []string{}}},
+	"C13": {{"kind": "signature"}},
+	// a request one operator refuses (one-directional broadcasting), then another operator on the same operands
+	"C03": {{"kind": "attribute", "op": "PRelu", "opB": "Sub", "attrsA": "", "attrsB": "", "shape": []int{1, 2}, "inits": []string{"w:2,2"}, "order": "ABAB", "refusedA": true},
+		{"kind": "attribute", "op": "PRelu", "opB": "Less", "attrsA": "", "attrsB": "", "shape": []int{2, 1}, "inits": []string{"w:1,2"}, "order": "ABAB", "refusedA": true},
+		{"kind": "attribute", "op": "Add", "opB": "PRelu", "attrsA": "", "attrsB": "", "shape": []int{2, 2}, "inits": []string{"w:2"}}},
+	"C14": {{"kind": "attribute", "op": "PRelu", "opB": "Mul", "attrsA": "", "attrsB": "", "shape": []int{1, 2}, "inits": []string{"w:2,2"}, "order": "ABAB", "refusedA": true}},
+	"C07": {{"kind": "attribute", "op": "Flatten", "attrsA": "axis=0", "attrsB": "", "shape": []int{2, 1, 2}, "inits": []string{}},
+		{"kind": "attribute", "op": "Flatten", "attrsA": "axis=2", "attrsB": "axis=-1", "shape": []int{2, 1, 2}, "inits": []string{}}},
+	"C09": {{"kind": "attribute", "op": "ReduceMax", "attrsA": "axes=0;keepdims=0", "attrsB": "", "shape": []int{2, 3}, "inits": []string{}},
+		{"kind": "attribute", "op": "ArgMax", "attrsA": "axis=1;keepdims=0", "attrsB": "", "shape": []int{2, 3}, "inits": []string{}},
+		{"kind": "attribute", "op": "Softmax", "attrsA": "axis=0", "attrsB": "", "shape": []int{2, 1}, "inits": []string{}}},
+	"C06": {{"kind": "attribute", "op": "GRU", "attrsA": "hidden_size=2;activations=tanh,sigmoid", "attrsB": "hidden_size=2", "shape": []int{2, 1, 2}, "inits": []string{"W:1,6,2", "R:1,6,2"}},
+		{"kind": "attribute", "op": "RNN", "attrsA": "hidden_size=2;activations=relu", "attrsB": "hidden_size=2", "shape": []int{2, 1, 2}, "inits": []string{"W:1,2,2", "R:1,2,2"}},
+		{"kind": "attribute", "op": "LSTM", "attrsA": "hidden_size=2;activations=tanh,sigmoid,relu", "attrsB": "hidden_size=2", "shape": []int{2, 1, 2}, "inits": []string{"W:1,8,2", "R:1,8,2"}}},
+	"C02": {{"kind": "attribute", "op": "RNN", "attrsA": "hidden_size=2;activations=relu", "attrsB": "hidden_size=2", "shape": []int{2, 1, 2}, "inits": []string{"W:1,2,2", "R:1,2,2"}},
+		{"kind": "constant", "enc": "typed"}},
+	"C05": {{"kind": "attribute", "op": "Conv", "attrsA": "dilations=2;strides=2", "attrsB": "", "shape": []int{1, 1, 4}, "inits": []string{"k:1,1,2"}}},
+	"C08": {{"kind": "attribute", "op": "Concat", "attrsA": "axis=0", "attrsB": "axis=-1", "shape": []int{2, 2}, "inits": []string{"w:2,2"}},
+		{"kind": "attribute", "op": "Transpose", "attrsA": "perm=1,0,2", "attrsB": "perm=", "shape": []int{2, 1, 2}, "inits": []string{}}},
+	"C17": {{"kind": "constant", "enc": "typed"}, {"kind": "linreg"}},
+	"C18": {{"kind": "signature"}, {"kind": "constant", "enc": "typed"}},
+}
+
+func twinJobs(prop string) []Job {
+	var jobs []Job
+	for _, c := range twinTable[prop] {
+		cm := map[string]interface{}{"prop": prop, "evaluates": true}
+		for k, x := range c {
+			cm[k] = x
+		}
+		jobs = append(jobs, Job{Harness: "gonnx.H_twins", Case: cm})
+	}
+	return jobs
+}
+
+// graphJobs: small graphs in which the property's operators meet other nodes (evaluated by Model.Run and
+// compared with the node-by-node reference of harness gonnx.H_C01; every intermediate is also a graph output).
+func graphJobs(prop string) []Job {
+	in, inits, sup := []string{"x:2,2", "y:2,2"}, []string{"w:2,2", "b:2", "ax:1:i64=-1", "ax0:1:i64=0", "s:2"}, []string{"x", "y"}
+	var gs [][]gnode
+	switch prop {
+	case "C10":
+		gs = [][]gnode{
+			{{"Tanh", "x", "h", ""}, {"Relu", "h", "o", ""}},
+			{{"Sigmoid", "x", "h", ""}, {"Abs", "h", "a", ""}, {"PRelu", "h,s", "o", ""}},
+			{{"Relu", "x", "h", ""}, {"Relu", "h", "a", ""}, {"Sinh", "h", "o", ""}},
+			{{"Abs", "x", "h", ""}, {"Tanh", "h", "a", ""}, {"Relu", "x", "o", ""}},
+		}
+	case "C14", "C03":
+		gs = [][]gnode{
+			{{"Unsqueeze", "b,ax", "u", ""}, {"Add", "x,u", "a", ""}, {"Sub", "a,b", "o", ""}},
+			{{"Unsqueeze", "b,ax0", "u", ""}, {"Mul", "u,y", "a", ""}, {"Sub", "a,b", "o", ""}},
+			{{"PRelu", "x,b", "p", ""}, {"Sub", "p,b", "a", ""}, {"Less", "a,x", "o", ""}},
+			{{"Gemm", "x,w,b", "g", ""}, {"Add", "g,b", "a", ""}, {"Greater", "b,a", "o", ""}},
+		}
+	case "C05":
+		in, inits = []string{"x:1,1,3,3"}, []string{"k:1,1,2,2", "k2:2,1,2,2", "cb:2"}
+		sup = []string{"x"}
+		gs = [][]gnode{
+			{{"Conv", "x,k", "a", ""}, {"Conv", "x,k2,cb", "o", ""}},
+			{{"Conv", "x,k", "a", ""}, {"Relu", "x", "r", ""}, {"Conv", "r,k2", "o", "pads=1,1,1,1"}},
+		}
+	case "C08":
+		inits = append(inits, "idx:1:i64=-1")
+		gs = [][]gnode{
+			{{"Gather", "x,idx", "g", "axis=0"}, {"Slice", "y,ax0,idx2,idx", "o", ""}},
+			{{"Gather", "x,idx", "g", "axis=1"}, {"Unsqueeze", "y,idx", "o", ""}},
+		}
+		inits = append(inits, "idx2:1:i64=2")
+	}
+	var jobs []Job
+	for _, g := range gs {
+		var outs []string
+		for _, n := range g {
+			outs = append(outs, n.out)
+		}
+		for _, o := range [][]string{outs, outs[len(outs)-1:]} {
+			cm := graphCase(g, in, inits, o, sup)
+			cm["evaluates"] = true
+			jobs = append(jobs, Job{Harness: "gonnx.H_C01", Case: cm})
+		}
+	}
+	return jobs
+}
+
 // AddSharedJobs appends the job families shared by several properties to a plan.
 func AddSharedJobs(p *Plan) {
+	if js := graphJobs(p.Property); len(js) > 0 {
+		p.Jobs = append(p.Jobs, js...)
+		p.Bounds = append(p.Bounds, "the property's operators inside small graphs next to other nodes (shared initializers, intermediates that are also outputs), evaluated by Model.Run against the node-by-node reference")
+	}
+	if js := twinJobs(p.Property); len(js) > 0 {
+		p.Jobs = append(p.Jobs, js...)
+		p.Bounds = append(p.Bounds, "two look-alike Models in one process (same graph, node and value names; they differ in a constant, an initializer, an attribute or a declared dimension): B, A, B again, A again - each returns what its own description means (closed form for constants, initializers, LinearRegressor, the signature) and the same as before the other one ran")
+	}
 	if js := respellJobs(p); len(js) > 0 {
 		p.Jobs = append(p.Jobs, js...)
 		p.Bounds = append(p.Bounds, "attribute spelling: for operators with optional attributes, the first six cases of each are repeated with the attribute list reversed and with the omitted attributes spelled out (default values) in front")
